@@ -66,6 +66,12 @@ def ite_val(c, a, b):
     if a is b:
         return a
     if isinstance(a, Num) and isinstance(b, Num):
+        fa, fb = getattr(a, "isnan", None), getattr(b, "isnan", None)
+        if fa is not None or fb is not None:
+            from .lib_np import NanNum          # a float that may be NaN keeps its flag through a conditional
+            fa = z3.BoolVal(False) if fa is None else (z3.BoolVal(fa) if isinstance(fa, bool) else fa)
+            fb = z3.BoolVal(False) if fb is None else (z3.BoolVal(fb) if isinstance(fb, bool) else fb)
+            return NanNum(z3.If(c, as_real(a), as_real(b)), z3.simplify(z3.If(c, fa, fb)))
         if a.is_int and b.is_int:
             return Num(z3.If(c, a.z, b.z), True)
         return Num(z3.If(c, as_real(a), as_real(b)), False)
